@@ -80,7 +80,8 @@ def guarded_phase(ctx, name, fn):
                   "the %s phase did not finish within %.0f s (quick runs take well under two minutes on the unchanged "
                   "tree): a call into the implementation does not return; interrupted at:\n%s"
                   % (name, limit, traceback.format_exc()[-1500:]))
-        ctx.fail("non-termination during " + name, {"phase": name, "limit_s": limit},
+        ctx.fail("non-termination during " + name, {"phase": name, "limit_s": limit,
+                                                    "input_being_processed": core.jsonable(getattr(ctx, "current_input", None))},
                  "no return within %.0f s" % limit, "every call returns (C19) and the check completes",
                  "phase watchdog")
     except Exception as e:  # noqa
@@ -140,7 +141,7 @@ def run(ctx, mod, a):
     if unsnapped:
         ctx.extra["modelled_functions_without_snapshot"] = unsnapped
     # 5. property oracle on the real code (always run; deeper when something broke or a modelled function changed)
-    ctx.extra["search_boost"] = bool(ctx.broken) or bool(changed)
+    ctx.extra["search_boost"] = bool(ctx.broken) or bool(changed) or bool(os.environ.get("D3_FORCE_BOOST"))
     guarded_phase(ctx, "search", mod.search)
 
     # ---- verdict
@@ -231,6 +232,10 @@ def write_evidence(ctx, mod, theorems, checker, gen_info, seen_known, violation,
         "violations": 1 if violation else 0,
     }
     d = os.path.join(core.VERIF, "evidence")
+    if os.environ.get("D3_REPO"):
+        # development runs against a scratch copy of the repository (seeded changes, rewrites) must not overwrite the
+        # evidence of the registered checks, which describes /repo itself
+        d = os.path.join(core.VERIF, ".scratch", "evidence-scratch-repo")
     os.makedirs(d, exist_ok=True)
     with open(os.path.join(d, ctx.prop + ".json"), "w") as f:
         json.dump(ev, f, indent=1, default=str)
